@@ -56,9 +56,13 @@ func vC19Configs(htp string) []vC19Cfg {
 			o.Cookie.Refresh = time.Hour
 			allClaims(o)
 		}, post: func(e *vEnv) {
-			e.opts.ForceHTTPS = true
-			e.opts.Server.SecureBindAddress = "127.0.0.1:8443"
-			e.rebuildChains()
+			// force-https on one of these configurations only: it answers every plain-HTTP request with a redirect
+			// before anything else runs
+			if h == "X-Real-IP" {
+				e.opts.ForceHTTPS = true
+				e.opts.Server.SecureBindAddress = "127.0.0.1:8443"
+				e.rebuildChains()
+			}
 		}}})
 	}
 	// bearer tokens of a second issuer, accepted through the generic token-to-session loader (sessions with an
@@ -135,6 +139,14 @@ func driveC19(t *testing.T, out *vEmitter) {
 			first := parts[0]
 			if i := strings.Index(first, "="); i >= 0 {
 				v := first[i+1:]
+				// numbered parts with gaps, without part 0, far apart, non-numeric
+				for _, g := range [][]string{{"_1"}, {"_0", "_2"}, {"_2", "_1"}, {"_5"}, {"_0", "_1", "_3"}, {"_00"}, {"_-1"}, {"_x"}, {"_18446744073709551616"}, {"_0", "_0"}} {
+					var ps []string
+					for _, sfx := range g {
+						ps = append(ps, name+sfx+"="+v[:len(v)/3])
+					}
+					vs = append(vs, strings.Join(ps, "; "))
+				}
 				for _, m := range []string{"", "|", "||", "a|b|c", "a|1|c", "|1|", v[:len(v)/2], v + "x", strings.Replace(v, "|", "", 1), "%zz", strings.Repeat("A", 5000),
 					"QUJD|1790000000|" + strings.Repeat("A", 43) + "=", "QUJD|-1|x", "QUJD|99999999999999999999|x", base64.URLEncoding.EncodeToString([]byte("v2.a")) + "|1|x"} {
 					vs = append(vs, name+"="+m, name+"_0="+m, name+"_0="+m+"; "+name+"_1="+m, name+"_csrf="+m)
@@ -152,7 +164,11 @@ func driveC19(t *testing.T, out *vEmitter) {
 			{{"X-Forwarded-Uri", "/%zz"}, {"X-Forwarded-Host", "a b"}, {"X-Forwarded-Proto", "javascript"}}, {{"X-Forwarded-Uri", "no-slash"}}, {{"X-Forwarded-Uri", "/a#%"}},
 			{{"X-Forwarded-Host", "[::1"}}, {{"X-Forwarded-Host", "x:y:z"}}, {{"X-Auth-Request-Redirect", "https://evil.com/%"}}, {{"X-Auth-Request-Redirect", "/ok"}},
 			{{"X-Real-IP", "10.1.2.3"}}, {{"X-Real-IP", "@"}}, {{"X-Forwarded-For", "10.1.2.3, garbage"}}, {{"X-Forwarded-For", ",,,"}}, {{"X-Forwarded-For", "[::1]:80"}}, {{"CF-Connecting-IP", "::ffff:10.0.0.1"}},
-			{{"X-Envoy-External-Address", "300.1.1.1"}}, {{"X-ProxyUser-IP", ""}}, {{"Accept", "application/json"}}, {{"Accept", "text/html, application/json;q=0.9"}},
+			{{"X-Envoy-External-Address", "300.1.1.1"}}, {{"X-ProxyUser-IP", ""}},
+			{{"X-Real-IP", ","}, {"X-Forwarded-For", ","}, {"X-ProxyUser-IP", ","}, {"X-Envoy-External-Address", ","}, {"CF-Connecting-IP", ","}},
+			{{"X-Real-IP", " , "}, {"X-Forwarded-For", ", ,"}, {"X-ProxyUser-IP", "\t"}, {"X-Envoy-External-Address", ",,"}, {"CF-Connecting-IP", " "}},
+			{{"X-Real-IP", ":"}, {"X-Forwarded-For", "[]"}, {"X-ProxyUser-IP", "[::1"}, {"X-Envoy-External-Address", "1.2.3.4:"}, {"CF-Connecting-IP", ":80"}},
+			{{"X-Forwarded-For", "10.1.2.3"}, {"X-Forwarded-For", "127.0.0.1"}}, {{"X-Real-IP", ""}, {"X-Real-IP", "10.1.2.3"}}, {{"Accept", "application/json"}}, {{"Accept", "text/html, application/json;q=0.9"}},
 			{{"Connection", "upgrade"}, {"Upgrade", "websocket"}}, {{"Content-Type", "application/x-www-form-urlencoded"}}, {{"Origin", "null"}, {"Access-Control-Request-Method", "PUT"}}}
 		methods := []string{"GET", "GET", "GET", "POST", "OPTIONS", "HEAD", "DELETE", "PROPFIND"}
 		hosts := []string{"app.example.com", "app.example.com:8080", "x.a.example.com", "[::1]:4180", "localhost", "UPPER.example.com"}
